@@ -357,7 +357,14 @@ pub fn generate(seed: u64, index: usize, cfg: &GenCfg) -> Scenario {
     v
   };
   let mixed = rng.gen_bool(0.35) || matches!(fam, "ROLE" | "INJ" | "ABORT");
-  let first_roots = if ident || rng.gen_bool(0.5) { (1..=nt as i64).collect::<Vec<_>>() } else { pick_roots(&mut rng) };
+  let first_roots = if ident { (1..=nt as i64).collect::<Vec<_>>() }
+    else if rng.gen_bool(0.5) {
+      // all tasks, often not in id order: node creation order (initial ranks) then differs from the static require order, so
+      // that later dynamic requires go from younger to older nodes and reorder the topological ranks
+      let mut v: Vec<i64> = (1..=nt as i64).collect();
+      match rng.gen_range(0..3) { 0 => {} 1 => v.reverse(), _ => v.shuffle(&mut rng) }
+      v
+    } else { pick_roots(&mut rng) };
   hist.push(Step::Session { acts: first_roots.iter().map(|t| Act::Req { t: *t }).collect() });
   let mut dirty: BTreeSet<i64> = BTreeSet::new();
   let mut last_roots = first_roots.clone();
